@@ -646,6 +646,54 @@ func c24findCase(c *core.Ctx) {
 	if n == 0 {
 		c.Count("find_in_empty_feature")
 	}
+	// How the feature reaches the reader: directly, as a clone, or through a
+	// mutable world (added new, or replacing an earlier version with the same
+	// ID that was sorted differently).
+	type finder interface {
+		FindValue(key any) (any, bool)
+		FindValues(key any, values []any) []any
+	}
+	var target finder = f
+	via := "direct"
+	switch r.Intn(5) {
+	case 1:
+		via = "clone"
+		target = f.Clone().(*ingest.CollectionFeature)
+	case 2, 3, 4:
+		var w ingest.MutableWorld = ingest.NewBasicMutableWorld()
+		via = "basic-mutable"
+		if r.Bool() {
+			w = ingest.NewMutableOverlayWorld(ingest.NewBasicMutableWorld())
+			via = "mutable-overlay"
+		}
+		if r.Chance(0.6) {
+			prev := &ingest.CollectionFeature{CollectionID: f.CollectionID}
+			for _, it := range c24genList(r, kk, vk, c24size(r, 12)) {
+				prev.Keys = append(prev.Keys, it.k.goValue())
+				prev.Values = append(prev.Values, it.v.goValue())
+			}
+			if r.Chance(0.7) != sorted { // mostly the opposite sortedness
+				prev.Sort()
+			}
+			if err := w.AddFeature(prev); err != nil {
+				c.Violate("find:setup-failed", nil, "AddFeature(previous collection) failed: %v", err)
+				return
+			}
+			via += "-replacing"
+			c.Count("find_after_replacing_collection")
+		}
+		if err := w.AddFeature(f); err != nil {
+			c.Violate("find:setup-failed", nil, "AddFeature(collection) failed: %v", err)
+			return
+		}
+		got, ok := w.FindFeatureByID(f.FeatureID()).(b6.CollectionFeature)
+		if !ok {
+			c.Violate("find:world-lost-collection", nil, "the world does not return the collection feature that was added")
+			return
+		}
+		target = got
+	}
+	c.Count("find_via_" + via)
 	// probes: every key, and some others
 	var probes []c24val
 	for _, it := range l {
@@ -677,11 +725,11 @@ func c24findCase(c *core.Ctx) {
 		var gok bool
 		var gvs []interface{}
 		panicked, class, frame, _ := core.Protect(func() {
-			gv, gok = f.FindValue(p.goValue())
-			gvs = f.FindValues(p.goValue(), nil)
+			gv, gok = target.FindValue(p.goValue())
+			gvs = target.FindValues(p.goValue(), nil)
 		})
 		script = append(script, p.String())
-		w := map[string]any{"keys": c24renderSlice(f.Keys), "values": c24renderSlice(f.Values), "sorted": sorted, "probe": p.String()}
+		w := map[string]any{"keys": c24renderSlice(f.Keys), "values": c24renderSlice(f.Values), "sorted": sorted, "probe": p.String(), "via": via}
 		if panicked {
 			c.Violate("FindValue:panic@"+frame+":"+class, w, "FindValue(%s) panicked: %s", p, class)
 			continue
@@ -702,7 +750,7 @@ func c24findCase(c *core.Ctx) {
 				p, c24renderSlice(f.Keys), got, all)
 		}
 	}
-	c.Key("find sorted=%v %s probes=%s", sorted, c24renderList(l), strings.Join(script, ","))
+	c.Key("find sorted=%v via=%s %s probes=%s", sorted, via, c24renderList(l), strings.Join(script, ","))
 	if c.Index < 3 {
 		c.Sample(map[string]any{"kind": "CollectionFeature", "items": c24renderList(l), "sorted": sorted})
 	}
@@ -736,7 +784,7 @@ func init() {
 			"input_empty", "input_duplicate_keys", "input_duplicate_values", "flatten_empty_inner", "flatten_empty_outer",
 			"join_missing_key_present_in_base", "join_missing_key_absent_from_base", "join_missing_empty_base", "join_missing_empty_joined",
 			"count_reported_and_checked", "count_not_reported", "chain_of_three",
-			"find_in_sorted_feature", "find_in_unsorted_feature", "find_with_duplicate_keys", "find_present_key", "find_absent_key", "find_in_empty_feature",
+			"find_in_sorted_feature", "find_in_unsorted_feature", "find_after_replacing_collection", "find_via_clone", "find_with_duplicate_keys", "find_present_key", "find_absent_key", "find_in_empty_feature",
 			"top_of_strings_must_fail", "sum_by_key_of_strings_must_fail"},
 		Run: func(c *core.Ctx) {
 			r := c.R
